@@ -538,13 +538,63 @@ fn concurrent_programs() -> Vec<(crate::sched::Program, crate::props::e1::Mode, 
             add("set|deleter-oldest", vec![vec![api(Op::Set(m.clone(), v(0)))], vec![POp::Unlink(oldest.clone())]]);
             add("set|set", vec![vec![api(Op::Set(m.clone(), v(0)))], vec![api(Op::Set(j.clone(), v(1)))]]);
         }
+        // a reader looks an entry up while it is being written; two more entries follow, and a fourth write maintains
+        // a directory of capacity 2.  If the lookup hit, and returned before that fourth write began, the entry was read
+        // since its insertion: the pass re-queues it and evicts the oldest unread entry instead.
+        let other = |n: &str| crate::ops::key_for_shards(n, 0, 1, 2);
+        for set in [true, false] {
+            let first = if set { Op::Set(m.clone(), e1::wval(0, 0, Size::One)) } else { Op::Put(m.clone(), e1::wval(0, 0, Size::One)) };
+            out.push((
+                crate::sched::Program {
+                    name: format!("readmark-{}-{}|get", front, if set { "set" } else { "put" }),
+                    cfg: mkcfg(if front == "sharded" { 4 } else { 2 }),
+                    pre: vec![],
+                    threads: e1::own_handles(
+                        vec![
+                            vec![api(first), api(Op::Set(other("a1"), e1::wval(0, 1, Size::One))), api(Op::Set(other("a2"), e1::wval(0, 2, Size::One))), api(Op::Set(other("a3"), e1::wval(0, 3, Size::One)))],
+                            vec![api(Op::Get(m.clone()))],
+                        ],
+                        true,
+                    ),
+                    create_write_dir: true,
+                },
+                crate::props::e1::side_bound(),
+                2,
+            ));
+        }
     }
     out
+}
+
+/// Programs "readmark-*": see `concurrent_programs`.
+fn readmark_check(x: &crate::sched::Execution) -> Vec<(String, String)> {
+    let mut bad = Vec::new();
+    if x.history.iter().any(|r| r.outcome.res.is_err() || r.outcome.res.is_panic()) {
+        return bad; // C05's business
+    }
+    let get = x.history.iter().find(|r| r.tid == 1);
+    let last_write = x.history.iter().find(|r| r.tid == 0 && r.idx == 3);
+    if let (Some(g), Some(w)) = (get, last_write) {
+        let hit = matches!(g.outcome.res, crate::ops::Res::Hit(_));
+        if hit && g.end <= w.begin {
+            let survives = x.final_snapshot.iter().any(|(rel, n)| n.kind == 'f' && rel.starts_with("w/") && !rel.contains(".kismet_temp") && (rel.ends_with("/m") || rel == "w/m"));
+            if !survives {
+                bad.push((
+                    "read-entry-evicted".into(),
+                    "the entry was looked up (a hit) after its insertion and before the maintaining write began, yet that write's pass evicted it although an older-or-equal unread entry was there to take".into(),
+                ));
+            }
+        }
+    }
+    bad
 }
 
 fn concurrent_check(x: &crate::sched::Execution, capacity: usize) -> Vec<(String, String)> {
     use crate::shim::Kind;
     let mut bad = Vec::new();
+    if x.history.iter().any(|r| r.tid == 0 && r.idx == 3) {
+        bad.extend(readmark_check(x));
+    }
     let wroot = x.root.join("w").to_string_lossy().into_owned();
     // per (thread, op): the maintenance pass = its opendir of a cache directory up to the next opendir
     let mut i = 0;
@@ -626,7 +676,7 @@ pub fn run(tier: Tier, shard: Shard, rep: &mut Report) {
          preemptions): no pass evicts more than (entries it managed to stat) - capacity, and in the end no directory holds more than \
          capacity + (number of writes) files; and with one writer and a deleter of one entry the final directory is exactly the classical \
          pass on the population with or without that entry (same names, re-queued survivors freshly stamped and unmarked, the rest \
-         untouched). Non-trivial = n > capacity and (a tie or \
+         untouched); and a reader looking an entry up while it is written (set, put), followed by two more writes and a maintaining one: an entry that was hit before the maintaining write began survives it. Non-trivial = n > capacity and (a tie or \
          a read mark present).",
         seq_n,
         seq_n + 1,
